@@ -63,6 +63,7 @@ module.exports = {
       if (['abort', 'timeout', 'harness'].includes(r.status)) rep.inconclusive.push({ reason: 'harness-' + r.status, detail: js[i].meta.sigBase })
       if (r.stats) {
         rep.evaluations++
+        if (js[i].meta.splices) bump('programs_with_spliced_operations')
         bump('hook_sites_erased', r.stats.hooks); bump('temp_sequences_erased', r.stats.seqs); bump('guards_erased', r.stats.guards); bump('redispatch_undone', r.stats.undispatch); bump('injected_lets_removed', r.stats.lets); bump('spreads_unmaterialised', r.stats.spreads)
         if (r.stats.hooks > 0) rep.distinct.push(hashStr(js[i].code + '|' + js[i].cfgName))
         if (rep.samples.length < 2 && r.status === 'equal' && js[i].code.length < 1500) rep.samples.push({ input: clip(js[i].code, 400), config: js[i].cfgName, erased: r.stats })
